@@ -33,6 +33,30 @@ fn prop(m: &str, expect: Value) -> Value {
     json!({"m": m, "prop": true, "expect": {"v": expect}})
 }
 
+/// modify_order in keyword, positional or mixed form (documented order: order_id, new_price, new_vol)
+fn modify_call(rng: &mut Sm, oid: usize, np: Option<u32>, nv: Option<u32>) -> Value {
+    match rng.below(3) {
+        0 => {
+            let mut kw = serde_json::Map::new();
+            if let Some(p) = np {
+                kw.insert("new_price".into(), json!(p));
+            }
+            if let Some(v) = nv {
+                kw.insert("new_vol".into(), json!(v));
+            }
+            call("modify_order", json!([oid]), Value::Object(kw), json!({"v": null}))
+        }
+        1 => call("modify_order", json!([oid, np, nv]), json!({}), json!({"v": null})),
+        _ => {
+            let mut kw = serde_json::Map::new();
+            if let Some(v) = nv {
+                kw.insert("new_vol".into(), json!(v));
+            }
+            call("modify_order", json!([oid, np]), Value::Object(kw), json!({"v": null}))
+        }
+    }
+}
+
 struct Band {
     tick: u32,
     center: u64,
@@ -138,14 +162,7 @@ pub fn gen_orderbook_script(id: usize, rng: &mut Sm, n_calls: usize, dir: &str) 
             b.set_time(t);
             calls.push(call("set_time", json!([t]), json!({}), json!({"v": null})));
             b.modify_order(oid, np, nv);
-            let mut kw = serde_json::Map::new();
-            if let Some(p) = np {
-                kw.insert("new_price".into(), json!(p));
-            }
-            if let Some(v) = nv {
-                kw.insert("new_vol".into(), json!(v));
-            }
-            calls.push(call("modify_order", json!([oid]), Value::Object(kw), json!({"v": null})));
+            calls.push(modify_call(rng, oid, np, nv));
         } else if r < 60 {
             if rng.chance(0.5) {
                 b.disable_trading();
@@ -287,14 +304,7 @@ pub fn gen_stepenv_script(id: usize, rng: &mut Sm, n_calls: usize) -> GenOut {
             let nv = if rng.chance(0.7) { Some(rng.range(1, 100) as u32) } else { None };
             env.modify_order(oid, np, nv);
             pending += 1;
-            let mut kw = serde_json::Map::new();
-            if let Some(p) = np {
-                kw.insert("new_price".into(), json!(p));
-            }
-            if let Some(v) = nv {
-                kw.insert("new_vol".into(), json!(v));
-            }
-            calls.push(call("modify_order", json!([oid]), Value::Object(kw), json!({"v": null})));
+            calls.push(modify_call(rng, oid, np, nv));
         } else if r < 72 {
             env.step(&mut xr);
             pending = 0;
